@@ -38,24 +38,66 @@ SeqSet(s) == {s[i] : i \in 1..Len(s)}
 Opt(n) == IF n = "" THEN {} ELSE {n}
 ParamNames(p) == SeqSet(p.posonly) \cup SeqSet(p.pos) \cup SeqSet(p.kwonly) \cup Opt(p.vararg) \cup Opt(p.kwarg)
 
-RECURSIVE EFree(_), EsFree(_), GensInner(_, _), SBound(_), SsBound(_), SNeed(_), SsNeed(_)
+RECURSIVE EFree(_), EsFree(_), GensInner(_, _), SBound(_), SsBound(_), SNeed(_), SsNeed(_),
+          EBind(_), EsBind(_), GensBind(_, _), TBound(_), TsBound(_), TNeed(_), TsNeed(_)
 GenTargets(gs) == UNION {SeqSet(gs[i].targets) : i \in 1..Len(gs)}
+\* Names an expression BINDS in the function it stands in: `name := value` binds in the enclosing function
+\* or lambda, passing through comprehension scopes.
+EBind(e) ==
+  CASE e.k \in {"name", "const"} -> {}
+    [] e.k = "op" -> EsBind(e.args)
+    [] e.k = "walrus" -> {e.id} \cup EBind(e.value)
+    [] e.k = "lambda" -> EsBind(e.params.defaults) \cup EsBind(e.params.kwdefaults)    \* the body binds in the lambda
+    [] e.k = "comp" -> EsBind(e.elts) \cup GensBind(e.gens, 1)
+EsBind(es) == IF es = <<>> THEN {} ELSE EBind(Head(es)) \cup EsBind(Tail(es))
+GensBind(gs, i) == IF i > Len(gs) THEN {} ELSE EsBind(gs[i].ifs) \cup GensBind(gs, i + 1)
+\* Assignment targets: a pattern binds the names at its leaves; attribute and subscript targets bind
+\* nothing and READ their object (and index).
+TBound(t) ==
+  CASE t.k = "tname" -> {t.id}
+    [] t.k = "ttuple" -> TsBound(t.elts)
+    [] t.k = "tstar" -> TBound(t.elt)
+    [] t.k \in {"tattr", "tsub"} -> {}
+TsBound(ts) == IF ts = <<>> THEN {} ELSE TBound(Head(ts)) \cup TsBound(Tail(ts))
+TNeed(t) ==
+  CASE t.k = "tname" -> {}
+    [] t.k = "ttuple" -> TsNeed(t.elts)
+    [] t.k = "tstar" -> TNeed(t.elt)
+    [] t.k = "tattr" -> EFree(t.obj)
+    [] t.k = "tsub" -> EFree(t.obj) \cup EFree(t.index)
+TsNeed(ts) == IF ts = <<>> THEN {} ELSE TNeed(Head(ts)) \cup TsNeed(Tail(ts))
 \* names an expression needs from the scope it stands in
 EFree(e) ==
   CASE e.k = "name" -> {e.id}
     [] e.k = "const" -> {}
     [] e.k = "op" -> EsFree(e.args)
+    [] e.k = "walrus" -> EFree(e.value)
     [] e.k = "lambda" -> EsFree(e.params.defaults) \cup EsFree(e.params.kwdefaults)
-                         \cup (EFree(e.body) \ ParamNames(e.params))
+                         \cup (EFree(e.body) \ (ParamNames(e.params) \cup EBind(e.body)))
     [] e.k = "comp" -> EFree(e.gens[1].iter)
                        \cup ((EsFree(e.elts) \cup GensInner(e.gens, 1)) \ GenTargets(e.gens))
 EsFree(es) == IF es = <<>> THEN {} ELSE EFree(Head(es)) \cup EsFree(Tail(es))
 \* evaluated inside the comprehension's own scope: every condition, every iterable but the first
 GensInner(gs, i) == IF i > Len(gs) THEN {}
                     ELSE EsFree(gs[i].ifs) \cup (IF i > 1 THEN EFree(gs[i].iter) ELSE {}) \cup GensInner(gs, i + 1)
-\* names a statement binds in the scope it stands in
-SBound(s) ==
+\* the expressions that stand directly in a statement (not those of the statements nested in it)
+SExprs(s) ==
+  CASE s.k \in {"assign", "assignx", "augassign", "expr", "return"} -> <<s.value>>
+    [] s.k = "annassign" -> (IF s.hasvalue THEN <<s.value>> ELSE <<>>)
+    [] s.k = "for" -> <<s.iter>>
+    [] s.k \in {"while", "if"} -> <<s.test>>
+    [] s.k = "try" -> <<s.extype>>
+    [] s.k \in {"with", "withx"} -> <<s.ctx>>
+    [] s.k = "def" -> s.decorators \o s.params.defaults \o s.params.kwdefaults \o s.annots
+    [] s.k = "class" -> s.bases
+    [] OTHER -> <<>>
+\* names a statement binds in the scope it stands in (SBound0: by its own form; plus := in its expressions)
+SBound0(s) ==
   CASE s.k = "assign" -> SeqSet(s.targets)
+    [] s.k = "assignx" -> TsBound(s.pats)                   \* chained assignment: EVERY target pattern binds
+    [] s.k = "annassign" -> {s.target}                      \* with or without a value the name is local
+    [] s.k = "withx" -> TBound(s.pat) \cup SsBound(s.body)
+    [] s.k = "class" -> {s.name}
     [] s.k \in {"augassign", "del"} -> {s.target}          \* `del x` makes x a local of the scope as well
     [] s.k \in {"expr", "return", "break"} -> {}
     [] s.k = "for" -> SeqSet(s.targets) \cup SsBound(s.body) \cup SsBound(s.orelse)
@@ -64,10 +106,16 @@ SBound(s) ==
     [] s.k = "with" -> Opt(s.asname) \cup SsBound(s.body)
     [] s.k = "import" -> SeqSet(s.names)
     [] s.k = "def" -> {s.name}
+SBound(s) == SBound0(s) \cup EsBind(SExprs(s))
 SsBound(ss) == IF ss = <<>> THEN {} ELSE SBound(Head(ss)) \cup SsBound(Tail(ss))
 \* names a statement needs from its scope or beyond (the scope's own locals are subtracted by the scope)
 SNeed(s) ==
   CASE s.k = "assign" -> EFree(s.value)
+    [] s.k = "assignx" -> EFree(s.value) \cup TsNeed(s.pats)
+    [] s.k = "annassign" -> (IF s.hasvalue THEN EFree(s.value) ELSE {})   \* a local annotation is not evaluated
+    [] s.k = "withx" -> EFree(s.ctx) \cup TNeed(s.pat) \cup SsNeed(s.body)
+    \* a class body is a scope of its own (no functions inside are generated): bases are read outside
+    [] s.k = "class" -> EsFree(s.bases) \cup (SsNeed(s.body) \ SsBound(s.body))
     [] s.k = "augassign" -> {s.target} \cup EFree(s.value)
     [] s.k \in {"expr", "return"} -> EFree(s.value)
     [] s.k \in {"break", "del"} -> {}
